@@ -19,7 +19,8 @@ RULE = ("job = seed (+ optional forced (suite, version, EtM) grid cell) -> "
         "settings objects and the user recordSize. distinct = digest(scenario,"
         " script, effective choices); non-trivial = handshake completed and "
         ">= 1 byte of application data was delivered in some direction"
-        ' Op alphabet also has zero-length reads (the documented poll idiom) and re-sending the SAME caller-owned bytearray object; the data phase may run on a resumed connection.')
+        ' Op alphabet also has zero-length reads (the documented poll idiom) and re-sending the SAME caller-owned bytearray object; the data phase may run on a resumed connection.'
+        ' TLS 1.3 scripts also issue KeyUpdates; a last chunk may be written right before close while the peer asks for more.')
 LEVEL_TEXT = ("Seeded exploration: every negotiable (suite, version) cell "
               "and EtM on/off is visited in the quick tier, then random "
               "configurations and write/read histories under benign schedule "
